@@ -48,6 +48,11 @@ def rule_enq(ctx, rep):
             hit, _ = f.reach([succ[0].inst], [l.inst])
             rep.check(hit is None, "C12.enq", tag + ".return-after-advance", "returns after linking (no second link)", "loops again after a successful link", [succ[0].inst.where()])
         if helpx:
+            # helping is unconditional: once the link cmpxchg failed (another node is linked behind the loaded tail) every way
+            # back to the retry passes the helping cmpxchg - a guard in front of it ("tail already moved?") can only skip it,
+            # and when it is skipped with q->tail == tail nobody but the (possibly suspended) linker ever advances the tail
+            rep.must_pass("C12.enq", tag + ".help-unconditional", f, [l.inst], tl, lambda i: i is helpx[0].inst or i is succ[0].inst if succ else i is helpx[0].inst,
+                          what="after a failed link every retry first attempts the helping advance of q->tail")
             hit, _ = f.reach([helpx[0].inst], tl)
             rep.check(hit is not None, "C12.enq", tag + ".retry-after-help", "retries from a fresh tail after helping", "does not retry after helping", [helpx[0].inst.where()])
 
@@ -65,7 +70,8 @@ def rule_deq(ctx, rep):
             continue
         c = hx[0]
         m = f.mod
-        ed = [x for x in f.calls() if m.fn(x.callee) is not None and m.fn(x.callee).srcname == "enqueue_dummy"]
+        # the dummy enqueue: the helper enqueue_dummy(), or - when it is inlined into dequeue - the generic enqueue it performs
+        ed = [x for x in f.calls() if m.fn(x.callee) is not None and m.fn(x.callee).srcname in ("enqueue_dummy", "_cds_lfq_enqueue_rcu")]
         # never unlink the last node: every path to the cmpxchg has next != NULL or went through enqueue_dummy + reload
         nl = [l for l in pat.loads(f, NEXT)]
         nonnull_edges = [(t.blk.id, s) for t, s, a in pat.branch_edges_on(f, lambda a: a[0] == "ne" and a[2] == ("c", 0) and a[1][0] == "load" and a[1][1].endswith(NEXT))]
